@@ -141,6 +141,22 @@ def draw_system(rng, seed: int, prop: str, *, families=("single",) * 6 + ("cross
         bad = {"F0": [], "F1": [], "F2": []}
         params = models.draw_multi_params(rng, [a, b, c])
     cfg.update(descs=descs, fits=fits, new=new, bad=bad, params=params)
+    # "rotator focus" (half of the runs of classes that have a rotator): as many modes as the data allow, a flat
+    # spectrum (so that the rotation re-ranks modes: the sorting bookkeeping only shows then) and a history
+    # that fits the rotator early
+    cfg["focus"] = None
+    if spec.rotator and rng.random() < 0.5:
+        cfg["focus"] = "rotator"
+        for k, d in descs.items():
+            if d.get("kind") != "weights":
+                d["ratio"] = rng.choice([0.9, 0.95]) if "ratio" in d else d.get("ratio")
+        if fam == "single":
+            small = min((descs["D0"], descs["D1"], descs["D2"]), key=models._rank)
+            params["n_modes"] = max(int(params["n_modes"]), min(5, max(2, models._rank(small))))
+        elif fam == "cross":
+            rk = [min(models._rank(descs[k]) for k in ks) for ks in (("X0", "X1", "X2"), ("Y0", "Y1", "Y2"))]
+            params["n_pca_modes"] = ["all", "all"]
+            params["n_modes"] = max(2, min(5, rk[0], rk[1]))
     cfg["rot_params"] = models.draw_rotator_params(rng, params, lazy=lazy if lazy else None) if spec.rotator else None
     cfg["boot_params"] = {"n_bootstraps": rng.randint(2, 4), "seed": rng.randrange(1000)} if name == "EOF" and not lazy else None
     cfg["sched"] = sched.Config(W=rng.choice([1, 1, 2, 3, 4, 8]), reexec=rng.choice([0, 0, 0.05, 0.15]),
